@@ -146,6 +146,37 @@ static int on_term_key(TickitTerm *term, TickitEventFlags flags, void *_info, vo
   return _handle_key(win, info);
 }
 
+/* Deliver a mouse event straight to a window that is not reached by recursing
+ * from the root.  _handle_mouse() holds a reference to every window it is
+ * working on, but here nothing holds the ancestors: a handler that releases
+ * its own window and then one of its ancestors would destroy that ancestor at
+ * once, and the ancestor's destruction would consume the very reference
+ * _handle_mouse() holds on the window.  So hold the ancestors as well, and let
+ * go of them nearest first, the way the recursion from the root would
+ */
+static TickitWindow *_handle_mouse_at(TickitWindow *win, TickitMouseEventInfo *info)
+{
+  size_t n = 0;
+  for(TickitWindow *w = win->parent; w; w = w->parent)
+    n++;
+
+  TickitWindow **held = NULL;
+  if(n && !(held = malloc(n * sizeof(TickitWindow *))))
+    return NULL;
+
+  size_t i = 0;
+  for(TickitWindow *w = win->parent; w; w = w->parent)
+    held[i++] = tickit_window_ref(w);
+
+  TickitWindow *ret = _handle_mouse(win, info);
+
+  for(i = 0; i < n; i++)
+    tickit_window_unref(held[i]);
+  free(held);
+
+  return ret;
+}
+
 static int on_term_mouse(TickitTerm *term, TickitEventFlags flags, void *_info, void *user)
 {
   TickitRootWindow *root = user;
@@ -203,7 +234,7 @@ static int on_term_mouse(TickitTerm *term, TickitEventFlags flags, void *_info, 
         .col    = info->col  - geom.left,
       };
 
-      _handle_mouse(root->drag_source_window, &draginfo);
+      _handle_mouse_at(root->drag_source_window, &draginfo);
     }
 
     root->mouse_dragging = false;
@@ -222,7 +253,7 @@ static int on_term_mouse(TickitTerm *term, TickitEventFlags flags, void *_info, 
       .col    = info->col  - geom.left,
     };
 
-    _handle_mouse(root->drag_source_window, &draginfo);
+    _handle_mouse_at(root->drag_source_window, &draginfo);
   }
 
   tickit_window_unref(win);
